@@ -1,7 +1,7 @@
 import DdsModel.Drv.Util
 import DdsModel.QuantFmt
 /-! Driver section of C12: same case lines as harness/src/c12.rs, prints `ok <len> <fnv64>`. -/
-namespace Dds.Drv
+namespace Dds.Drv.C12
 open Dds.Quant
 
 def hexDigit (c : Char) : Option Nat :=
@@ -171,4 +171,8 @@ def runC12 (line : String) : String :=
     | _, _, _, _ => "bad-case"
   | _ => "bad-case"
 
+end Dds.Drv.C12
+
+namespace Dds.Drv
+def runC12 : String → String := C12.runC12
 end Dds.Drv
